@@ -41,6 +41,10 @@ def scenarios(tier, seed):
             add("stub_posterior", n=n, m=m, mean=["constant", "zero", "linear"][i % 3],
                 lik=["gaussian", "fixed", "fixed_learn"][i % 3], cfg=cfg, batch=0)
         add("stub_posterior", n=2, m=2, mean="constant", lik="gaussian", cfg={}, batch=2)
+        # the attached-cache (detach_test_caches off) exact-solve branch at sizes where every entry is non-trivial
+        add("stub_posterior", n=2, m=2, mean="constant", lik="gaussian", cfg={"detach": False}, batch=0, small_noise=True)
+        add("stub_posterior", n=3, m=1, mean="zero", lik="fixed", cfg={"detach": False, "lazy": False}, batch=0, small_noise=True)
+        add("stub_posterior", n=2, m=1, mean="constant", lik="gaussian", cfg={"detach": False, "fpv": True, "eager": 0}, batch=0, small_noise=True)
         add("real_kernel", kernel="rbf", n=2, m=2, cfg={})
         add("real_kernel", kernel="rq", n=2, m=1, cfg={"fpv": True})
         add("replaced_targets", n=2, m=2)
@@ -61,7 +65,7 @@ def scenarios(tier, seed):
     return out
 
 
-def stub_posterior(S, n, m, mean, lik, cfg, batch):
+def stub_posterior(S, n, m, mean, lik, cfg, batch, small_noise=False):
     N = n + m
     bs = (batch,) if batch else ()
     x = labels(0, n, bs)
@@ -82,7 +86,19 @@ def stub_posterior(S, n, m, mean, lik, cfg, batch):
     likelihood.eval()
     Y = S.sym_tensor(y, "y")
     declare_params(S, model.mean_module, "mean_")
-    declare_params(S, likelihood, "lik_")
+    if small_noise:
+        # witness with a small noise so that the noise-free stub Gram J - S is itself positive definite at the witness
+        # (a change that factorises the wrong matrix then shows up as a wrong value instead of a failed factorisation)
+        with torch.no_grad():
+            for p_ in likelihood.parameters():
+                p_.fill_(-4.0)
+        for name_, p_ in likelihood.named_parameters():
+            S.sym_tensor(p_, "lik_" + name_.replace(".", "_"))
+        if lik != "gaussian":
+            with torch.no_grad():
+                likelihood.noise_covar.noise.mul_(0.05)
+    else:
+        declare_params(S, likelihood, "lik_")
     if lik != "gaussian":
         S.sym_tensor(likelihood.noise_covar.noise, "fixednoise", positive=True)
     with S.mode():
